@@ -240,24 +240,29 @@ pub fn sites(tier: Tier) -> Vec<Site> {
     // 1. every (size, type) header x fill x buffer length x mode
     sites.push(Site::new(
         "headers",
-        65536 * 3 * 3 * 2,
-        "every (size byte, type byte) x body fill {00,ff,01 02 03..} x buffer length {announced, announced-1, announced+sentinel TINY} x mode",
+        65536 * 3 * 7 * 2,
+        "every (size byte, type byte) x body fill {00, ff, 01 02 03.., 01s ending in 00, ffs ending in 00, 00s ending in ff, ramp ending in 00} x buffer length {announced, announced-1, announced+sentinel TINY} x mode",
         |i, acc| {
             let compressed = i % 2 == 0;
             let j = i / 2;
             let lenv = j % 3;
-            let fill = (j / 3) % 3;
-            let st = j / 9;
+            let fill = (j / 3) % 7;
+            let st = j / 21;
             let size = (st >> 8) as u8;
             let ty = (st & 255) as u8;
             let n = if compressed { size as usize * 4 } else { size as usize };
             let n_eff = n.max(4);
             let mut buf = vec![size, ty];
             for x in 2..n_eff {
+                let last = x + 1 == n_eff;
                 buf.push(match fill {
                     0 => 0,
                     1 => 0xff,
-                    _ => (x - 1) as u8,
+                    2 => (x - 1) as u8,
+                    3 => if last { 0 } else { 1 },
+                    4 => if last { 0 } else { 0xff },
+                    5 => if last { 0xff } else { 0 },
+                    _ => if last { 0 } else { (x - 1) as u8 },
                 });
             }
             match lenv {
@@ -315,20 +320,23 @@ pub fn sites(tier: Tier) -> Vec<Site> {
         let fr = fr.clone();
         let mut toffs = vec![0u64];
         for f in fr.iter() {
-            toffs.push(toffs.last().unwrap() + (f.2.len() as u64) * 2 + 1);
+            toffs.push(toffs.last().unwrap() + ((f.2.len() as u64) * 2 + 1) * 3);
         }
         let total = *toffs.last().unwrap();
         sites.push(Site::new(
             "truncation",
             total,
-            "every reference frame x every truncation point {size byte kept, size byte adjusted to the new length} + extension by 4 zero bytes with the size byte adjusted",
+            "every reference frame x every truncation point {size byte kept, size byte adjusted to the new length} x last byte {as it was, 00, ff} + extension by 4 zero bytes with the size byte adjusted",
             move |i, acc| {
                 let fi = match toffs.binary_search(&i) {
                     Ok(x) => x,
                     Err(x) => x - 1,
                 };
                 let (name, compressed, frame) = &fr[fi];
-                let r = (i - toffs[fi]) as usize;
+                let r3 = (i - toffs[fi]) as usize;
+                // the last byte of the shortened frame as it was, 00, ff
+                let last_variant = r3 % 3;
+                let r = r3 / 3;
                 let len = frame.len();
                 let mut buf;
                 let what;
@@ -352,7 +360,16 @@ pub fn sites(tier: Tier) -> Vec<Site> {
                         buf[0] = if *compressed { (cut / 4) as u8 } else { cut as u8 };
                         buf.extend_from_slice(if *compressed { &SENTINEL_C } else { &SENTINEL_U });
                     }
-                    what = format!("cut at {cut}, size byte {}", if adjust { "adjusted" } else { "kept" });
+                    what = format!("cut at {cut}, size byte {}, last byte {}", if adjust { "adjusted" } else { "kept" }, ["kept", "00", "ff"][last_variant]);
+                    if last_variant > 0 && cut >= 3 {
+                        let at = if adjust { cut - 1 } else { cut - 1 };
+                        buf[at] = if last_variant == 1 { 0 } else { 0xff };
+                    } else if last_variant > 0 {
+                        return;
+                    }
+                }
+                if r == 2 * len && last_variant > 0 {
+                    return;
                 }
                 let replay = json!({"site": "truncation", "index": i, "frame": name, "what": what, "input": hex(&buf[..buf.len().min(64)])});
                 judge(*compressed, &buf, i, replay, acc);
